@@ -424,9 +424,9 @@ func (x *jobCtx) continueState(pristine string, start *ea.Model, rev0 int64, sc 
 		case so.Err == "":
 			succ++
 			for _, c := range cands {
-				if !stepModel(c, st) {
-					return &verdict{"success-not-explained", fmt.Sprintf("step %d %s reported success although the state it ran in does not allow it (the name exists already / the member is not removable); script: %s", i+1, st.String(), desc())}, nil
-				}
+				// a step the model does not allow here (e.g. the retry of an operation whose commit already happened
+				// and that now only clears the leftovers) must then be a no-op: the final comparison decides
+				stepModel(c, st)
 			}
 		default:
 			if st.T == "w" {
